@@ -26,7 +26,7 @@ BOOLS = (BOOL_ON, BOOL_OFF, BOOL_PLAIN)
 INT_OPT = "union_simplification_limit"
 LIST_OPT = "disallow_calls_to_dunders"
 LIST_VALUES = [[], ["a"], ["b", "c"], ["a", "d"], ["d"]]
-MODS = ["pa", "pb", "pc"]  # module path components -> N codes 1,2,3
+MODS = ["pa", "pab", "pb", "pbb"]  # module path components -> N codes; "pab"/"pbb" share string prefixes with "pa"/"pb" (a prefix test on dotted strings instead of components must not pass)
 
 
 def mod_code(m):
@@ -489,7 +489,7 @@ def run(tier: str, replay: str | None = None):
         if tier == "quick":
             ex = ex[: 16 + 256] + rng.sample(ex[16 + 256 :], 200)
         for st in ex:
-            cases.append((st, [], [(), ("pa",), ("pa", "pb"), ("pa", "pb", "pc"), ("pb",)]))
+            cases.append((st, [], [(), ("pa",), ("pa", "pb"), ("pa", "pb", "pbb"), ("pb",), ("pab",), ("pa", "pbb")]))
 
     # 3. run implementation, oracle, and collect model terms
     terms = []
